@@ -4,7 +4,7 @@ import collections
 from .. import obs as O
 from .. import sgr_model as M
 from .common import (Contract, ansi_values, history, run_cases, tier_sizes, safe_obs, norm_range, settings_texts,
-                     GROUP_CODES)
+                     GROUP_CODES, small_scope_values, small_scope_on, ss_specs)
 from ..gen import gen_range, gen_settings
 
 PROP = 'C06'
@@ -207,6 +207,19 @@ def drive(ctx, mon, tier, only_case=None):
     sz = tier_sizes(tier)
 
     def body(rng, ex, case):
+        if case == 0:
+            # bounded-exhaustive part: every small-scope value x every further apply_formatting of the same scope
+            m = small_scope_on(ctx, tier)
+            specs = ss_specs()
+            nv = 0
+            for v, _ in small_scope_values(L, m, ctx.shard, ctx.extra.get('nshards', 1)):
+                nv += 1
+                for c, a, b, top in specs:
+                    with mon.quiet():
+                        t = L.AnsiString(v)
+                    t.apply_formatting(c, a, b, topmost=top)
+            ctx.extra['n_small_scope_values'] = nv
+            return
         profile = rng.choice(['wf', 'wf', 'mixed', 'hostile'])
         history(L, rng, ex, rng.randint(1, sz['nops']), sz['maxlen'], profile, WEIGHTS)
         for _ in range(3):
